@@ -275,6 +275,12 @@ func (hc *HostConfigOptional) Unwrap() *HostConfig {
 	if hc.ServerKEMKey != nil {
 		newHC.ServerKEMKey = *hc.ServerKEMKey
 	}
+	if hc.ServerIPv4 != nil {
+		newHC.ServerIPv4 = *hc.ServerIPv4
+	}
+	if hc.ServerIPv6 != nil {
+		newHC.ServerIPv6 = *hc.ServerIPv6
+	}
 	if hc.Certificate != nil {
 		newHC.Certificate = *hc.Certificate
 	}
